@@ -7,6 +7,10 @@ check_impl is the property's own predicate on the implementation's answer:
     length and both bit orders,
   * hashlib sha3_* / shake_* as a secondary oracle wherever a b=1600 case is a SHA-3 / SHAKE instance,
   * the published vectors of tests/test_keccak.py (KAT),
+  * per-call rate (`k(M,bitlen,r=rc)`), `setrate` and the module-level objects keccak_224…512: the result must be the
+    reference sponge at the rate in force for THAT call (absorbing, padding and squeezing), hashlib when that makes the
+    call a SHA3/SHAKE instance (prefix of the digest), and the object's r,c afterwards must be what the constructor /
+    setrate gave it,
   * the output length law (ceil(d/8) bytes, unused high bits zero) and the extra-block-not-failure law
     (in-domain input => a value; blocks: floor(L/r)+1 blocks of r bits = N || 1 0* 1).
 """
@@ -18,14 +22,15 @@ LEAN_PROOFS = ['Proofs.C04', 'Proofs.C04.SpecKat']
 GEN_ITEMS = ['KeccakG']
 RULE = ('op lines = (op, width b, rate r, bit-order mode, message, bit length L, output length d); rates incl. r<8 and r not a '
         'multiple of 8, L over {0,1,r-2,r-1,r,r+1,2r-2,2r-1,2r,2r+1,..} x L mod 8, d over {1,r,r+1,3r}; distinct lines; '
-        'non-trivial = the implementation returned a value')
+        'per-call rate lines (r=<rc>, setrate=<r1>, module-level objects): rc equal/smaller/larger than the object rate, odd, <8, 0, >=b, >1536, L on the block boundaries of both rates; non-trivial = the implementation returned a value')
 TRUSTED = ['Spec/Keccak.lean renders FIPS 202 at lane level (theta/rho/pi/chi/iota on 25 lanes of w bits); the bit-level reading of '
            'FIPS 202 section 3.2 is cited, not re-proved',
            'validated (supporting only) against hashlib sha3/shake, the vectors of tests/test_keccak.py and an independent Python '
            'reference for b < 1600',
            'CPython int/bytes/BytesIO semantics are modelled (Model.Py), validated by this stream']
 ASSUMPTIONS = ['python -O (asserts stripped) is out of scope', 'rate 0 makes Keccak.duplex/iterblocks loop forever in Python: outside the domain 0 < r',
-               'the per-call `r` argument of Keccak.__call__ and the persistence of `duplexing` after duplex() belong to C10 (history), not exercised here']
+               'a per-call rate 0 never returns (iterblocks yields empty blocks for ever): reported as HANG by a yield counter put on that one '
+               'object, outside the domain; the persistence of `duplexing` after duplex() and longer call histories belong to C10']
 LINE_TIMEOUT = 120
 
 WIDTHS = (25, 50, 100, 200, 400, 800, 1600)
@@ -45,10 +50,25 @@ def run_impl(line):
         assert len(st.lanes) == 25
         return st
     def go():
+        if op == 'keccak' and len(a) > 6:
+            sr, rc = opts_of(a[6:])
+            k = K.Keccak(b=int(a[0]), r=int(a[1]), len=int(a[5]))
+            if a[2] == 'L': k.duplexing = True
+            return rate_call(k, sr, rc, unhx(a[3]), unoi(a[4]))
         if op == 'keccak':
             k = K.Keccak(b=int(a[0]), r=int(a[1]), len=int(a[5]))
             if a[2] == 'L': k.duplexing = True
             return hx(k(unhx(a[3]), bitlen=unoi(a[4])))
+        if op == 'keccak.single':
+            sr, rc = opts_of(a[4:])
+            if sr is not None: raise RuntimeError('keccak.single takes no setrate=')
+            k = getattr(K, 'keccak_' + a[0])          # the shared module-level object itself
+            saved = dict(vars(k))
+            try:
+                k.duplexing = (a[1] == 'L')
+                return rate_call(k, None, rc, unhx(a[2]), unoi(a[3]))
+            finally:                                  # later lines of this worker see the object as the module built it
+                vars(k).clear(); vars(k).update(saved)
         if op == 'keccak.blocks':
             k = K.Keccak(b=1600, r=int(a[0]))
             if a[1] == 'L': k.duplexing = True
@@ -74,6 +94,44 @@ def run_impl(line):
             return ';'.join(out)
         raise RuntimeError('unknown op ' + op)
     return guarded(go)
+
+
+class _Hang(Exception): pass
+
+
+def opts_of(toks):
+    """trailing options of a sponge line: setrate=<n> (on the object, before the call) and r=<n> (per-call rate)"""
+    sr = rc = None
+    for t in toks:
+        k, v = t.split('=')
+        if k == 'setrate' and sr is None: sr = int(v)
+        elif k == 'r' and rc is None: rc = int(v)
+        else: raise RuntimeError('bad option ' + t)
+    return sr, rc
+
+
+def rate_call(k, sr, rc, M, L):
+    """k.setrate(sr); k(M,bitlen=L,r=rc) -> '<result>|<k.r>,<k.c>' (attributes of the object AFTER the call, raised or not)"""
+    attrs = lambda: '%d,%d' % (k.r, k.c)
+    if sr is not None:
+        if guarded(lambda: (k.setrate(sr), 'ok')[1]) == 'ERR': return 'ERR|' + attrs()
+    kw = {} if rc is None else {'r': rc}
+    if rc == 0 or k.r == 0:
+        # rate 0 handed to iterblocks yields empty blocks for ever: count the yields of this one object
+        orig, limit = k.iterblocks, 8 * len(M) + 64
+        def counted(*args, **kargs):
+            for i, x in enumerate(orig(*args, **kargs)):
+                if i > limit: raise _Hang()
+                yield x
+        k.iterblocks = counted
+        # any other way of never returning at rate 0 is cut short (the per-line alarm of runcheck, re-armed; SIGALRM
+        # is only touched when runcheck's handler is installed)
+        import signal
+        if callable(signal.getsignal(signal.SIGALRM)): signal.alarm(4)
+    def go():
+        try: return hx(k(M, bitlen=L, **kw))
+        except _Hang: return 'HANG'
+    return guarded(go) + '|' + attrs()
 
 
 def steps_of(toks):
@@ -145,10 +203,62 @@ KAT = {}   # op line -> expected canonical result (vectors of /repo/tests/test_k
 def in_domain(b, r): return b in WIDTHS and 0 < r < b and r <= 1536
 
 
+def hashlib_oracle(r, M, N, L, d, out):
+    """b=1600: when the message bits end in a SHA-3 / SHAKE suffix and r is the rate of an instance, every whole byte of
+    the first min(d, n) output bits is the hashlib digest (the sponge output is prefix-consistent in d)"""
+    if L >= 2 and L % 8 == 2 and (N >> (L - 2)) == 2:
+        for n, rate in SHA3_RATE.items():
+            k = min(d, n) // 8
+            if rate == r and k and out[:k] != hashlib.new('sha3_%d' % n, M[:L // 8]).digest()[:k]:
+                return 'differs from hashlib sha3_%d' % n
+    if L >= 4 and L % 8 == 4 and (N >> (L - 4)) == 15 and d >= 8 and r in (1344, 1088):
+        if out[:d // 8] != hashlib.new('shake_128' if r == 1344 else 'shake_256', M[:L // 8]).digest(d // 8):
+            return 'differs from hashlib shake'
+    return None
+
+
+def check_rate_call(bad, res, b, r0, sr, rc, mode, M, L, d):
+    """the predicate of `keccak … setrate= r=` and `keccak.single`: res = '<result>|<r>,<c>'"""
+    if b not in WIDTHS or r0 > 1536: return None            # the constructor refuses: no object
+    if '|' not in res: return bad('the constructor raised for b=%d r=%d' % (b, r0))
+    out, attrs = res.split('|')
+    robj = r0
+    if sr is not None:
+        if sr > 1536:
+            if out != 'ERR': return bad('setrate(%d) must be refused' % sr)
+        else: robj = sr
+    if attrs != '%d,%d' % (robj, b - robj):
+        return bad('the object holds r,c=%s after the call, expected %d,%d (a per-call rate must leave no trace)' % (attrs, robj, b - robj))
+    if sr is not None and sr > 1536: return None
+    re = robj if rc is None else rc                           # the rate in force for this call
+    if not in_domain(b, re): return None
+    if L is None: L = 8 * len(M)
+    if L > 8 * len(M): return None if out == 'ERR' else bad('bit length beyond the data must be refused')
+    if out in ('ERR', 'HANG'): return bad('in-domain call raised/hung (object rate %d, call rate %d, L=%d, L mod r=%d)' % (robj, re, L, L % re))
+    out = unhx(out)
+    if len(out) != (d + 7) // 8: return bad('output has %d bytes for d=%d' % (len(out), d))
+    if d % 8 and out[-1] >> (d % 8): return bad('bits beyond d are set')
+    N = ref_bits(mode, M, L)
+    exp = ref_sponge(b, re, N, L, d)
+    if out != exp: return bad('differs from the reference sponge at the rate of this call, %d (expected %s)' % (re, exp.hex()[:64]))
+    if b == 1600:
+        why = hashlib_oracle(re, M, N, L, d, out)
+        if why: return bad(why)
+    return None
+
+
 def check_impl(line, res):
     t = line.split(); op, a = t[0], t[1:]
     bad = lambda why: '%s: %s' % (op, why)
     if line in KAT and res != KAT[line]: return bad('differs from the published vector')
+    if op == 'keccak' and len(a) > 6:
+        sr, rc = opts_of(a[6:])
+        return check_rate_call(bad, res, int(a[0]), int(a[1]), sr, rc, a[2], unhx(a[3]), unoi(a[4]), int(a[5]))
+    if op == 'keccak.single':
+        n = int(a[0])
+        if n not in SHA3_RATE: return None if res == 'ERR' else bad('there is no such module-level object')
+        sr, rc = opts_of(a[4:])
+        return check_rate_call(bad, res, 1600, 1600 - 2 * n, None, rc, a[1], unhx(a[2]), unoi(a[3]), n)
     if op == 'keccak':
         b, r, mode, M, L, d = int(a[0]), int(a[1]), a[2], unhx(a[3]), unoi(a[4]), int(a[5])
         if not in_domain(b, r): return None
@@ -162,15 +272,9 @@ def check_impl(line, res):
         exp = ref_sponge(b, r, N, L, d)
         if out != exp: return bad('differs from the reference sponge (expected %s)' % exp.hex()[:64])
         # secondary oracle: b=1600 and the message ends in a SHA-3 / SHAKE suffix
-        if b == 1600 and L >= 2:
-            if L % 8 == 2 and (N >> (L - 2)) == 2 and d % 8 == 0:
-                for n, rate in SHA3_RATE.items():
-                    if rate == r and d == n:
-                        h = hashlib.new('sha3_%d' % n, M[:L // 8]).digest()
-                        if out != h: return bad('differs from hashlib sha3_%d' % n)
-            if L % 8 == 4 and (N >> (L - 4)) == 15 and d % 8 == 0 and d > 0 and r in (1344, 1088):
-                h = hashlib.new('shake_128' if r == 1344 else 'shake_256', M[:L // 8]).digest(d // 8)
-                if out != h: return bad('differs from hashlib shake')
+        if b == 1600:
+            why = hashlib_oracle(r, M, N, L, d, out)
+            if why: return bad(why)
         return None
     if op == 'keccak.blocks':
         r, mode, M, L = int(a[0]), a[1], unhx(a[2]), unoi(a[3])
@@ -385,6 +489,99 @@ def duplex_cases(tier, rng):
         yield 'keccak.duplex %d %d | x01 1 %d | x00 1 None' % (b, r, min(r + 1, b)), 'duplex:outlen>r'
 
 
+def rate_line(b, r0, mode, M, L, d, sr=None, rc=None):
+    return sponge_line(b, r0, mode, M, L, d) + ('' if sr is None else ' setrate=%d' % sr) + ('' if rc is None else ' r=%d' % rc)
+
+def single_line(n, mode, M, L, rc=None):
+    return 'keccak.single %d %s %s %s' % (n, mode, hx(M), oi(L)) + ('' if rc is None else ' r=%d' % rc)
+
+def rc_class(b, r0, rc):
+    if rc is None: return 'none'
+    if rc == 0 or rc >= b or rc > 1536: return 'invalid'
+    return ('=' if rc == r0 else '<' if rc < r0 else '>') + ('' if rc % 8 == 0 else ':odd')
+
+def rate_cases(tier, rng):
+    """per-call rate r=, setrate() and the module-level objects: the rate of THIS call must be the rate of absorbing,
+    padding and squeezing alike.  Lengths sit on the block boundaries of BOTH the per-call and the object rate, d runs
+    over one and several squeezes."""
+    quick = tier == 'quick'
+    cfgs = [(1600, 576), (1600, 1088), (200, 40), (25, 8), (100, 36), (800, 512)]
+    if not quick: cfgs += [(1600, 1344), (1600, 1027), (1600, 1536), (50, 3), (400, 144), (200, 165), (200, 0), (200, 300)]
+    for b, r0 in cfgs:
+        top = min(b - 1, 1536)
+        rcs = {r0, r0 // 2, r0 // 2 + 1, r0 - 8, r0 - 1, r0 + 1, r0 + 8, 1, 3, 7, 8, 13, top, top - 7, (r0 + top) // 2}
+        if b == 1600: rcs |= {576, 832, 1088, 1152, 1344, 1027}
+        if b == 200: rcs |= {40, 72, 136}
+        if quick and b not in (1600, 200): rcs = {r0, r0 // 2 + 1, r0 - 1, r0 + 8, 3, 13, top}
+        if quick and (b, r0) == (1600, 1088): rcs = {r0, r0 // 2 + 1, r0 - 1, r0 + 8, 3, 13, top, 576, 1344}
+        valid = sorted(x for x in rcs if 0 < x <= top)
+        invalid = sorted({0, b, b + 1, 1536 if b < 1536 else 1599, 1537, 1600})
+        for rc in valid:
+            Ls = {0, 1, 9, rc - 2, rc - 1, rc, rc + 1, 2 * rc - 1, 2 * rc, 2 * rc + 1}
+            if r0 <= 6 * rc: Ls |= {r0 - 2, r0 - 1, r0, r0 + 1}
+            if r0 <= 3 * rc: Ls |= {2 * r0 - 1, 2 * r0}
+            Ls = sorted(x for x in Ls if x >= 0)
+            if quick and len(Ls) > 7: Ls = [0] + rng.sample(Ls[1:], 6)
+            ds = [1, rc, rc + 1, 3 * rc, min(2 * r0 + 8, 6 * rc) or 8, 8 * ((rc + 15) // 8)]
+            for k, L in enumerate(Ls):
+                mode = 'NL'[k % 2]
+                d = ds[(k + rc) % len(ds)]
+                M = msg_for(rng, L, extra=k % 2)
+                yield rate_line(b, r0, mode, M, L, d, rc=rc), 'rate:b%d:rc%s:L%%rc=%s' % (b, rc_class(b, r0, rc), lclass(L, rc))
+            M = rbytes(rng, (rc + 9) // 8)
+            yield rate_line(b, r0, 'N', M, None, ds[rc % len(ds)], rc=rc), 'rate:b%d:rc%s:bitlen=None' % (b, rc_class(b, r0, rc))
+            yield rate_line(b, r0, 'L', M, 8 * len(M) + 1, 8, rc=rc), 'rate:bitlen-too-large'
+        for rc in invalid:
+            for M in (b'', rbytes(rng, 3)):
+                yield rate_line(b, r0, 'N', M, None, 16, rc=rc), 'rate:b%d:rc-invalid' % b
+            yield rate_line(b, r0, 'L', rbytes(rng, 2), 9, 16, rc=rc), 'rate:b%d:rc-invalid' % b
+            yield rate_line(b, r0, 'N', b'ab', 17, 16, rc=rc), 'rate:b%d:rc-invalid' % b
+        # setrate(): the new rate is the rate of every later call; a refused setrate leaves the object alone;
+        # setrate followed by a per-call rate: the call uses the per-call rate, the object keeps the setrate one
+        for sr in sorted({r0, r0 // 2 + 1, min(r0 + 8, top), 13 if b > 13 else 3, top, 0, b, 1536, 1537}):
+            for rc in (None, r0, max(r0 // 2, 1), 13 if b > 13 else 5):
+                if quick and rc not in (None, r0) and sr not in (r0 // 2 + 1, top, 1537): continue
+                re = sr if rc is None else rc
+                L = rng.choice([0, 1, max(re - 1, 0), re, re + 1, 2 * re + 3, max(r0 - 1, 0)])
+                M = msg_for(rng, L, rng.randrange(2))
+                yield rate_line(b, r0, rng.choice('NL'), M, L, rng.choice([8, re + 1, 2 * re + 8]), sr=sr, rc=rc), 'setrate:b%d' % b
+    # SHA-3 / SHAKE in disguise through the per-call rate (hashlib inside check_impl): an object with another split
+    # (the SHA3-512 one, the SHAKE128 one, an odd one) called with the rate of the instance
+    for r0 in (576, 1344, 1027):
+        for n, r in SHA3_RATE.items():
+            if r == r0: continue
+            for nb in (0, 1, r // 8 - 1, r // 8, r0 // 8, 200):
+                if quick and nb in (1, r0 // 8) and r0 != 576: continue
+                M = rbytes(rng, nb)
+                yield rate_line(1600, r0, 'L', M + bytes([0x02 | (rng.getrandbits(6) << 2)]), 8 * nb + 2, rng.choice([n, n, 512, 8 * 300]), rc=r), 'rate:sha3-suffix'
+                yield rate_line(1600, r0, 'N', M + bytes([0x80 | rng.getrandbits(6)]), 8 * nb + 2, n, rc=r), 'rate:sha3-suffix'
+        for r in (1344, 1088):
+            if r == r0: continue
+            for nb in (0, r // 8 - 1, r // 8, r0 // 8, 300):
+                M = rbytes(rng, nb)
+                yield rate_line(1600, r0, 'L', M + bytes([0x0f | (rng.getrandbits(4) << 4)]), 8 * nb + 4, rng.choice([264, 2 * r + 8, 8 * 400]), rc=r), 'rate:shake-suffix'
+    # the module-level objects keccak_224 … keccak_512 (shared by every caller) with and without a per-call rate
+    for n, r0 in SHA3_RATE.items():
+        rcs = [None, r0, 1088 if r0 != 1088 else 576, 1344, 13, 1535, 0, 1537, 1600]
+        if not quick: rcs += [1, 7, 8, 1027, 1536, 832 if r0 != 832 else 1152, r0 - 1, r0 + 1]
+        for rc in rcs:
+            re = r0 if rc is None else rc
+            lens = [0, max(re - 2, 0), re - 1 if re else 1, re + 1, r0] if (rc is None or 0 < rc <= 1536) else [0, 8]
+            if quick and len(lens) > 3: lens = [lens[0]] + rng.sample(lens[1:], 2)
+            for k, L in enumerate(lens):
+                M = msg_for(rng, L, k % 2)
+                yield single_line(n, 'NL'[k % 2], M, L, rc), 'single:%d:rc%s' % (n, rc_class(1600, r0, rc))
+            yield single_line(n, 'N', rbytes(rng, 5), None, rc), 'single:%d:bitlen=None' % n
+            if rc is None or 8 <= rc <= 1536:
+                for nb in (0, re // 8 - 1, re // 8):
+                    M = rbytes(rng, nb)
+                    yield single_line(n, 'L', M + bytes([0x02 | (rng.getrandbits(6) << 2)]), 8 * nb + 2, rc), 'single:sha3-suffix'
+                    if not quick: yield single_line(n, 'L', M + bytes([0x0f | (rng.getrandbits(4) << 4)]), 8 * nb + 4, rc), 'single:shake-suffix'
+        yield single_line(n, 'N', b'ab', 17, None), 'single:bitlen-too-large'
+        yield single_line(n, 'N', b'ab', 17, 1088), 'single:bitlen-too-large'
+    yield single_line(128, 'N', b'abc', None, None), 'malformed'
+
+
 def malformed_cases(tier, rng):
     yield sponge_line(1600, 1088, 'N', b'abc', 25, 256), 'malformed'
     yield sponge_line(1600, 1088, 'L', b'', 1, 256), 'malformed'
@@ -410,6 +607,12 @@ def cases(tier, rng):
             M = msg_for(rng, L, rng.randrange(3))
             yield blocks_line(r, mode, M, L), 'search'
             yield sponge_line(b, r, mode, M, L, rng.choice([1, r, r + 1, 2 * r + 3, rng.randrange(1, 3 * r + 2)])), 'search'
+            rc = rng.choice([rng.randrange(1, min(b, 1537)), rng.randrange(1, min(b, 20)), r + rng.choice([-8, -1, 1, 8])])
+            if 0 < rc < b and rc <= 1536:
+                L2 = rng.choice([L, max(0, rng.randrange(1, 4) * rc - rng.randrange(0, 3))])
+                yield rate_line(b, r, mode, msg_for(rng, L2, 1), L2, rng.choice([1, rc, rc + 1, 2 * rc + 3]), rc=rc), 'search'
+                yield rate_line(b, r, mode, msg_for(rng, L2, 1), L2, rng.choice([1, rc, rc + 1, 2 * rc + 3]), sr=rc), 'search'
+                if b == 1600: yield single_line(rng.choice(list(SHA3_RATE)), mode, msg_for(rng, L2, 1), L2, rc), 'search'
             w = b // 25
             yield 'keccak.f %d %s' % (w, state_tok(rng, w, 'rand')), 'search'
             yield 'keccak.round %d %d %s' % (w, rng.randrange(24), state_tok(rng, w, 'rand')), 'search'
@@ -423,6 +626,7 @@ def cases(tier, rng):
     yield from perm_cases(tier, rng)
     yield from sha_cases(tier, rng)
     yield from duplex_cases(tier, rng)
+    yield from rate_cases(tier, rng)
     yield from sponge_cases(tier, rng)
 
 
